@@ -293,12 +293,17 @@ def select_spec(n, default):
 
 
 con = contract(VRM + "SelectWith.write", PROPS)
+# C05 ("branch merge ... preserves the represented value"): in a concurrent context the alternatives of an unjoined merge are
+# converted to the target's type by THIS writer (the hint it passes to Value.write); the module is loaded for C05 for this contract
+contract(VRM + "SelectWith.write", ("C05",))
 for n in (0, 1, 2):
     for default in (True, False):
         c = Case(f"{n}-branches{'-default' if default else '-nodefault'}", [select_shape(n, default), SCOPE], select_spec(n, default))
         c.native = False
         c.interp_flags = {"opaque_texts_distinct": True}  # choices: the constants 0..n-1, see above
         c.custom_replay = "contracts.c06_extra.replay_select_no_default" if not default else "contracts.c06_extra.replay_select_default_hint"
+        if not default:
+            c.props = PROPS  # the missing `when others` is a legality clause (C06, known finding), not a conversion
         con.cases.append(c)
 
 
@@ -357,6 +362,7 @@ for _cls, _shape, _field in ((VR.CaseWhen, _distinct_case_shape, "_branches"), (
         c.may_reject = AssertionError
         c.models = [(VR.Value.__dict__["write"], _choice_text)]  # Constant inherits Value.write
         c.custom_replay = "contracts.c06_extra.replay_duplicate_choices"
+        c.props = PROPS
         con.cases.append(c)
 
 
@@ -639,4 +645,5 @@ for elem_kind in (Unsigned, Signed, BitVector):
         c.native = False
         c.interp_flags = {"class_call_models": {VR.Value: _value_ctor}, "opaque_texts_distinct": True}
         c.custom_replay = "contracts.c06_stmts.replay_array_selector"
+        c.props = PROPS
         C.CONTRACTS[VRM + "SelectWith.write"].cases.append(c)
